@@ -699,6 +699,10 @@ func (c Context) uiOptionsForHandler(opts []UIOption) (string, uiOptions, []Spec
 	if u != nil {
 		specPath = u.Path
 	}
+	// a location that names a directory ("/specs/") is served where the page references it
+	if trimmed := strings.TrimRight(specPath, "/"); trimmed != "" {
+		specPath = trimmed
+	}
 
 	pth, doc := path.Split(specPath)
 	if pth == "." {
